@@ -143,6 +143,9 @@ type Tags struct {
 	K string `db:"住所"`
 	L string `db:"住所２"`
 	M int    `db:"n٣"`
+	// format verbs: column text is data, never a format string
+	N int    `db:"\"pct%done\""`
+	O string `db:"'%d%%'"`
 }
 
 // MyV implements Valuer and Scanner.
@@ -372,7 +375,7 @@ var Entries = []Entry{
 	e(Deep3{}, "struct", false, "cx", "cy", "alt", "label", "floors", "owner", "site"),
 	e(Deep4{}, "struct", false, "cx", "cy", "alt", "label", "floors", "owner", "site", "tag", "last"),
 	e(EmployeeOffice{}, "struct", false, "id", "name", "city", "office_id"),
-	e(Tags{}, "struct", false, "名前", "9", "\"quoted\"", "'q k'", "_x", "col_1", "é", "\"first.name\"", "'f(x)'", "\"a b; c\"", "住所", "住所２", "n٣"),
+	e(Tags{}, "struct", false, "名前", "9", "\"quoted\"", "'q k'", "_x", "col_1", "é", "\"first.name\"", "'f(x)'", "\"a b; c\"", "住所", "住所２", "n٣", "\"pct%done\"", "'%d%%'"),
 	e(Kinds{}, "struct", false, "i", "i8", "u16", "i64", "s", "b", "f", "bs", "ps", "pi", "ns", "ni", "v", "pv", "anyf", "mi", "ms"),
 	e(EmbTagged{}, "struct", false, "myv", "z"),
 	e(EmbUnexp{}, "struct", false, "y"),
